@@ -97,6 +97,9 @@ def to_sexp(e):
         return f"(slc {to_sexp(e[1])} {e[2]} {e[3]})"
     if k == "rsz":
         return f"(rsz {to_sexp(e[1])} {e[2]})"
+    if k == "rszz":
+        # x.resize(w, zeros=z): z zero bits appended on the right, then extended to w = (x resized to w) << z
+        return f"(shl (rsz {to_sexp(e[1])} {e[2]}) (i {e[3]}))"
     if k in ("any", "all"):
         op = "or" if k == "any" else "and"
         xs = e[1]
@@ -184,6 +187,8 @@ def to_py(e):
         return f"{to_py(e[1])}.bitvector"
     if k == "rsz":
         return f"{to_py(e[1])}.resize({e[2]})"
+    if k == "rszz":
+        return f"{to_py(e[1])}.resize({e[2]}, zeros={e[3]})"
     if k == "truth":
         return f"bool({to_py(e[1])})"
     if k == "not":
@@ -234,7 +239,7 @@ def children(e):
 
 
 KINDS_ = {"p", "lit", "i", "sh", "ar", "bo", "inv", "neg", "abs", "cmp", "chain", "shl", "shr", "cat", "idx", "slc", "idxrt",
-          "sgn", "uns", "bv", "rsz", "truth", "not", "and", "or", "any", "all", "ite", "sel"}
+          "sgn", "uns", "bv", "rsz", "rszz", "truth", "not", "and", "or", "any", "all", "ite", "sel"}
 
 
 def size(e):
@@ -270,6 +275,9 @@ def ops_in(e, acc):
     return acc
 
 
+ALIAS_ROOTS = {"p", "sh", "lit", "i", "uns", "sgn", "bv", "slc", "idx", "idxrt"}
+
+
 def shared_of(shadows):
     """named sub-objects of a design: list of (tree, type, where) - stored under the key "shared" of the shadows dict"""
     return shadows.get("shared", [])
@@ -281,7 +289,7 @@ def sj(shadows):
 
 
 def shadow_ports(shadows):
-    return {k: v for k, v in shadows.items() if k not in ("shared", "g", "v")}
+    return {k: v for k, v in shadows.items() if k not in ("shared", "g", "v", "reassign")}
 
 
 def shared_used(e, acc=None):
@@ -375,8 +383,28 @@ class Gen:
                     return ("rsz", base, t[1])
         return None
 
+    force_var = False  # snapshot expressions: read inputs through their Variable whenever there is one
+
+    def gen_value(self, t, d):
+        """an expression whose ROOT is documented to produce a value (a Temporary), not an alias of an object:
+        arithmetic, resize, shift, concat, comparison, abs/neg/invert, bitwise, boolean operator, if-expression,
+        select_with - never a bare object, view, slice or index"""
+        for _ in range(30):
+            e = self.try_gen(t, d)
+            if e is None or e[0] in ALIAS_ROOTS:
+                continue
+            # `x if c else x` / select_with whose branches are all the same object is that object (no Temporary)
+            if e[0] == "ite" and e[2] == e[3]:
+                continue
+            if e[0] == "sel" and len({repr(v) for _, v in e[2]} | ({repr(e[3])} if e[3] is not None else set())) < 2:
+                continue
+            return e
+        return None
+
     def port(self, i, kind=None):
         """operand reading input i through one of its qualifier kinds (chosen independently per operand position)"""
+        if kind is None and self.force_var and i in self.vars and self.rng.random() < 0.85:
+            kind = "v"
         if kind is None:
             kinds = self.kinds_of(i)
             kind = False if (len(kinds) == 1 or self.rng.random() < 0.45) else self.rng.choice(kinds[1:])
@@ -743,6 +771,7 @@ def design_source(ports, shadows, exprs, out_types, clocked, record=True):
         lines.append(f"    o{k} = Port.output({ty_py(t)})\n")
     lines.append("\n    def architecture(self):\n")
     shared = shared_of(shadows)
+    reassign = {int(k): v for k, v in shadows.get("reassign", {}).items()}
     plain = sorted(shadows.get("g", ()))
     variables = sorted(shadows.get("v", ())) if clocked else []
     shadows = shadow_ports(shadows)
@@ -770,6 +799,10 @@ def design_source(ports, shadows, exprs, out_types, clocked, record=True):
     for j, (tree, _, where) in enumerate(shared):
         if where != "arch":
             lines.append(f"            f{j} = {to_py(tree)}\n")
+    # the Variables are reassigned AFTER the named sub-expressions were evaluated and BEFORE the outputs use them
+    for i, tree in sorted(reassign.items()):
+        if i in variables:
+            lines.append(f"            v{i}.value = {to_py(tree)}\n")
     for k, e in enumerate(exprs):
         lines.append(f"            r{k} = {to_py(e)}\n")
         if record:
@@ -1168,6 +1201,80 @@ def slice_designs(ctx):
     return out
 
 
+def snapshot_designs(ctx):
+    """clocked designs for the VALUE semantics of expressions: every input is copied into a Variable, named
+    sub-expressions `f<j> = <value-producing expression over the Variables>` are evaluated, THEN the Variables are
+    reassigned, THEN the outputs use the named sub-expressions (directly and inside further expressions).  The
+    documented value is the one at the point of binding (`evalSpec` of the bound tree on the input valuation).
+    Only constructors documented to produce a value are bound (arithmetic, resize incl. same width and zeros=,
+    shifts, concat, comparisons, abs / neg / invert, bitwise, boolean operators, if-expression, select_with); views,
+    slices and indices are aliases by design and are never bound across a reassignment."""
+    rng = ctx.rng
+    out = []
+    for n in range(ctx.scale(6, 48)):
+        kinds = [rng.choice(["u", "s"]), rng.choice(["u", "s", "bv"])]
+        ports = []
+        for kd in kinds:
+            w = rng.randint(2, 3)
+            ports += [(kd, w)] + ([(kd, w)] if rng.random() < 0.5 and sum(width(t) for t in ports) + 2 * w <= 9 else [])
+        ports.append(BIT)
+        shadows = {"v": list(range(len(ports)))}
+        g = Gen(rng, ports, 4, shadows)
+        g.force_var = True
+        shared = []
+        # the direct forms on every Variable, then random value-rooted trees
+        cand = []
+        for i, t in enumerate(ports):
+            v = ("p", i, "v", t)
+            if t[0] in ("u", "s"):
+                w = t[1]
+                cand += [("rsz", v, w), ("rsz", v, w + rng.randint(1, 3)), ("rszz", v, w + 3, rng.randint(1, 2)),
+                         ("ar", "add", v, ("i", 1)), ("ar", "sub", ("i", 0), v), ("shl", v, ("i", 1)), ("shr", v, ("i", 1)),
+                         ("inv", v), ("neg", v), ("cat", v, v), ("cmp", rng.choice(COPS), v, ("i", 1)),
+                         ("ite", ("p", len(ports) - 1, "v", BIT), v, ("inv", v)), ("truth", v), ("not", v),
+                         ("sel", ("p", len(ports) - 1, "v", BIT), [(0, v), (1, ("inv", v))], None)]
+                if t[0] == "s":
+                    cand += [("abs", v)]
+            elif t[0] == "bv":
+                cand += [("inv", v), ("cat", v, v), ("bo", "xor", v, ("lit", t, 1)), ("cmp", "eq", v, ("lit", t, 0)), ("truth", v)]
+            else:
+                cand += [("inv", v), ("bo", "and", v, v), ("not", v), ("cat", v, v)]
+        rng.shuffle(cand)
+        picked = cand[: rng.randint(4, 7)]
+        for _ in range(rng.randint(2, 4)):
+            e = g.gen_value(root_type(rng, 4), rng.randint(1, 2))
+            if e is not None:
+                picked.append(e)
+        types = [parse_model_type(m) for m in model_types(picked)]
+        for e, t in zip(picked, types):
+            if t is not None and t != INT:
+                shared.append((e, t, "snap"))
+        shadows["shared"] = shared
+        # reassignment: another value for every Variable (function of its old value or of another input)
+        re = {}
+        for i, t in enumerate(ports):
+            v = ("p", i, "v", t)
+            same = [j for j, tj in enumerate(ports) if tj == t and j != i]
+            c = rng.random()
+            if same and c < 0.35:
+                re[i] = ("p", rng.choice(same), False, t)
+            elif t[0] in ("u", "s") and c < 0.7:
+                re[i] = ("ar", "add", v, ("i", 1))
+            else:
+                re[i] = ("inv", v)
+        shadows["reassign"] = re
+        # outputs: the named values directly and as leaves of further expressions (no Variable reads here)
+        g.force_var = False
+        g.vars = set()
+        g.shared = shared
+        exprs = [g.sh(j) for j in range(len(shared))]
+        for _ in range(4):
+            exprs.append(g.gen(root_type(rng, 4), 2))
+        rng.shuffle(exprs)
+        out.append(DesignCase(ports, shadows, exprs, True, True))
+    return out
+
+
 def model_types(exprs):
     ans = lean_io.query("C02", ["type " + to_sexp(e) for e in exprs])
     for a, e in zip(ans, exprs):
@@ -1264,6 +1371,8 @@ def run(ctx: Ctx):
     designs += matrix_designs(ctx)
     # sub-object sharing: nested slices / views reused by several outputs (always swept exhaustively)
     designs += slice_designs(ctx)
+    # value semantics: named sub-expressions over Variables, Variables reassigned before the outputs use them
+    designs += snapshot_designs(ctx)
     # operand qualifier kinds (Port / Signal / Variable / Temporary / constant) per operand position
     designs += qualifier_matrix(ctx)
 
@@ -1727,7 +1836,9 @@ def replay(ctx, data):
     r = data["replay"]
     kind = r.get("kind")
     ports = [tuple(p) for p in r["ports"]]
-    shadows = {int(k): v for k, v in r.get("shadows", {}).items() if k not in ("shared", "g", "v")}
+    shadows = {int(k): v for k, v in r.get("shadows", {}).items() if k not in ("shared", "g", "v", "reassign")}
+    if r.get("shadows", {}).get("reassign"):
+        shadows["reassign"] = {int(k): _expr_from_json(v) for k, v in r["shadows"]["reassign"].items()}
     for key in ("g", "v"):
         if r.get("shadows", {}).get(key):
             shadows[key] = list(r["shadows"][key])
